@@ -242,6 +242,9 @@ def diff_stencils(rep, f, axis):
         return None
     covered = {l: [] for l in LOCS}
     nst = 0
+    from ..stores import effects as _effects
+    conds_of = {id(e.node): [T(mod, c) for c in e.conds if not isinstance(c, str)] for e in _effects(f.node, inline=False) if e.kind == "store"}
+    variants = {}  # (loc, boundary row) -> set of "neighbour" / "one-sided"
     for s in walk_own(f.node):
         if not (isinstance(s, ast.Assign) and isinstance(s.targets[0], ast.Subscript)):
             continue
@@ -323,9 +326,27 @@ def diff_stencils(rep, f, axis):
                 kind = "half-cell denominator away from a boundary"
             rep.ob("R5", "%s result.%s[%s]: %s (minuend at %+s, subtrahend at %+s, spacing x%s)" % (f.name, tloc, T(mod, s.targets[0].slice), kind, dm, ds, factor), ok, f.site(s),
                    "minuend %s, subtrahend %s" % (wm, ws), key=key + "/" + wm + "-" + ws)
+            # the arm a boundary-row stencil stands in: a neighbour's value is read only where
+            # that neighbour exists, the one-sided form is used only where it does not
+            nb = [w.split(":")[1] for w in (wm, ws) if w.startswith("neighbour:")]
+            cs = conds_of.get(id(s), [])
+            if nb:
+                want_c = K('self.connections["%s"] is not None' % nb[0])
+                rep.ob("R5", "%s result.%s[%s]: the %s neighbour is read only where the region has one" % (f.name, tloc, T(mod, s.targets[0].slice), nb[0]), want_c in cs, f.site(s),
+                       "conditions: %s" % cs, key=key + "/guard-neighbour")
+                variants.setdefault((tloc, "low" if nb[0] == low else "high"), set()).add("neighbour")
+            elif factor != 1 and (at_low or at_high):
+                side = low if at_low else high
+                want_c = K('self.connections["%s"] is None' % side)
+                rep.ob("R5", "%s result.%s[%s]: the one-sided boundary form is used only where there is no %s neighbour" % (f.name, tloc, T(mod, s.targets[0].slice), side), want_c in cs, f.site(s),
+                       "conditions: %s" % cs, key=key + "/guard-one-sided")
+                variants.setdefault((tloc, "low" if at_low else "high"), set()).add("one-sided")
         except StencilError as e:
             rep.ob("R5", "%s: assignment to result.%s understood as a difference stencil" % (f.name, tloc), False, f.site(s), str(e), key=key)
     rep.floor("R5.%s.statements" % f.name, nst, 10)
+    for (loc, side), got in sorted(variants.items()):
+        rep.ob("R5", "%s: the %s boundary row of result.%s is assigned both when the region has a neighbour there and when it has not" % (f.name, side, loc), got == {"neighbour", "one-sided"}, f.site(),
+               "variants present: %s" % sorted(got), key="%s/%s/%s-row-variants" % (f.name, loc, side))
     for loc in LOCS:
         n = stagger.XLEN[loc] if axis == "x" else stagger.YLEN[loc]
         pts = set()
